@@ -180,6 +180,10 @@ T_GO = T("C04go", "c03_go") + T("C04go", "c04_go_partial", "c04_go_indep_partial
 
 T_ASM = T("C03asm", "c03_asm") + T("C03asm", "c04_asm_partial", kind="full under `no dictionary or dst base address >= 65536` (every Go heap address)") \
     + T("C03asm", "c04_asm_false", kind="counterexample: the assembly rejects a valid dictionary offset when &dst < 65536 (unreachable address)")
+_K64 = "full under the documented assumption that the content is shorter than 2^64 bytes"
+T_C05 = T("C05", "c05_writeTo_partial", "c05_read_partial", kind=_K64) + T("C05", "c05_legacy", "c05_legacy_exact", "c05_legacy_consumed",
+          "legacyDictWitness_rejected", "legacyEmptyBlockWitness_rejected")
+T_C06 = T("C06", "c06_truncated")
 T_C09 = T("C09", "idx_valid", "c09_writer", "c09_writer_fast", "c09_clean") + T("C09full", "hcCorrect", "c09_writer_all", "c09_clean_all", ns="C09")
 T_C19 = T("C19", "c19_accept_iff", "c19_bad_checksum", "c19_bad_block_size", "c19_size", "c19_bad_magic", "c19_spec", "c19_reader_size")
 
@@ -192,12 +196,12 @@ PROPS = {
     "C20": dict(runs=[], extra=[x_c20], theorems=[],
                 rule="each case = (flag set, generated file, mode, file or stdin/stdout); every case is non-trivial; distinct = distinct case description"),
     "C02": dict(runs=[FW("fw", judge=j_c02w), FR("fr", judge=j_c02r)], theorems=T("C09full", "c09_writer_all", ns="C09")),
-    "C05": dict(runs=[FR("frmut", judge=j_c05), FR("fr", judge=j_c05)], theorems=[]),
-    "C06": dict(runs=[FR("frtrunc", judge=j_c06)], theorems=[]),
+    "C05": dict(runs=[FR("frmut", judge=j_c05), FR("fr", judge=j_c05)], theorems=T_C05),
+    "C06": dict(runs=[FR("frtrunc", judge=j_c06)], theorems=T_C06),
     "C07": dict(runs=[FR("frhost", judge=j_c07), FR("frmut", judge=j_c07)], theorems=[]),
     "C09": dict(runs=[FW("fw", judge=j_c09)], theorems=T_C09),
     "C15": dict(runs=[FW("fwfail", judge=j_c15w), FR("frfail", judge=j_c15r)], theorems=[]),
-    "C16": dict(runs=[FR("fr", judge=j_c16)], theorems=[]),
+    "C16": dict(runs=[FR("fr", judge=j_c16)], theorems=T("C05", "c05_writeTo_partial", "c05_read_partial", kind=_K64)),
     "C17": dict(runs=[FW("fwlife", judge=j_c17w), FR("fr", judge=j_c17r)], theorems=[]),
     "C01": dict(runs=[dict(CMP, judge=j_c01)], theorems=T_FAST + T_HC),
     "C03": dict(runs=[dict(DEC_ASM, judge=j_c03), dict(DEC_GO, judge=j_c03)], theorems=T("C04go", "c03_go") + T("C03asm", "c03_asm")),
